@@ -51,12 +51,29 @@ static inline std::string hex_of_vec(const std::vector<bool>& b) {
 }
 static inline const char* b01(bool b) { return b ? "1" : "0"; }
 
-// guard every API call: an exception is an observable result, not a crash
+// guard every API call: an exception is an observable result, not a crash; a synchronous signal
+// (SIGFPE from a native division, SIGSEGV, abort) is recovered with siglongjmp and reported as "!SIG<n>"
+#include <csignal>
+#include <csetjmp>
+#include <unistd.h>
+static sigjmp_buf g_jmp;
+static volatile sig_atomic_t g_in_guard = 0;
+static void on_signal(int sig) { if (g_in_guard) siglongjmp(g_jmp, sig); _exit(128 + sig); }
+static void install_signal_guards() {
+	struct sigaction sa; memset(&sa, 0, sizeof sa); sa.sa_handler = on_signal; sigemptyset(&sa.sa_mask); sa.sa_flags = SA_NODEFER;
+	for (int s : {SIGFPE, SIGSEGV, SIGBUS, SIGILL, SIGABRT}) sigaction(s, &sa, nullptr);
+}
 template <class F>
 static std::string guarded(F f) {
-	try { return f(); }
-	catch (const std::exception& e) { return std::string("!") + typeid(e).name(); }
-	catch (...) { return "!unknown"; }
+	int sig = sigsetjmp(g_jmp, 1);
+	if (sig != 0) { g_in_guard = 0; return "!SIG" + std::to_string(sig); }
+	g_in_guard = 1;
+	std::string r;
+	try { r = f(); }
+	catch (const std::exception& e) { r = std::string("!") + typeid(e).name(); }
+	catch (...) { r = "!unknown"; }
+	g_in_guard = 0;
+	return r;
 }
 
 inline std::vector<bool> Runner::gen(Rng& g) {
@@ -110,16 +127,19 @@ static std::vector<bool> related(Rng& g, Runner& r, const std::vector<bool>& a) 
 	}
 }
 
+static bool g_int_only = false;               // group "intconv": native integer conversions only
 static int g_op_lo = 0, g_op_hi = 1 << 30;    // op filter (groups "from" / "to")
 static std::string parse_group(int argc, char** argv, const std::string& dflt) {
 	std::string grp = dflt;
 	for (int i = 1; i + 1 < argc; ++i) if (std::string(argv[i]) == "--group") grp = argv[i + 1];
 	if (grp == "from") { g_op_lo = OP_from_f32; g_op_hi = OP_from_f80; return "conv"; }
 	if (grp == "to") { g_op_lo = OP_to_f64; g_op_hi = OP_to_f80; return "conv"; }
+	if (grp == "intconv") { g_int_only = true; return "conv"; }
 	return grp;
 }
 static void emit_case(Runner& r, int op, const std::vector<std::string>& a) {
 	if (op < g_op_lo || op > g_op_hi) return;
+	if (g_int_only && op != OP_from_int && op != OP_from_uint && op != OP_to_int) return;
 	std::string res = r.run(op, a);
 	printf("%d %s %d ", r.fam, r.cfg.c_str(), op);
 	if (a.empty()) printf("-");
@@ -129,6 +149,9 @@ static void emit_case(Runner& r, int op, const std::vector<std::string>& a) {
 
 static int drv_main(int argc, char** argv) {
 	Args A = parse_args(argc, argv);
+#ifndef NO_SIGNAL_GUARDS
+	install_signal_guards();
+#endif
 	if (A.mode == "exh") {
 		for (auto& r : g_runners) {
 			if (!r->small) continue;
